@@ -455,9 +455,25 @@ func (f *Filt) Go() filter.Filter {
 		}
 		return flt
 	case FLabels:
-		return filter.Labels(f.Map.Go())
+		// the caller's map is the caller's: it is changed after the call
+		m := f.Map.Go()
+		flt := filter.Labels(m)
+		scribbleMap(m)
+		return flt
 	case FLabelSelector:
-		return filter.LabelSelector(f.LSel.Go())
+		ls := f.LSel.Go()
+		flt := filter.LabelSelector(ls)
+		if ls != nil {
+			scribbleMap(ls.MatchLabels)
+			for i := range ls.MatchExpressions {
+				// (not the elements of Values: apimachinery's LabelSelectorAsSelector
+				// of this version keeps that slice, and what a caller may do to a
+				// selector it still shares with a filter is not for C18 to say)
+				ls.MatchExpressions[i].Key = "scribbled"
+				ls.MatchExpressions[i].Values = nil
+			}
+		}
+		return flt
 	case FFn:
 		inner := f.Children[0].Go()
 		return filter.FN(func(o metav1.Object) bool { return inner.Accept(o) })
@@ -466,7 +482,11 @@ func (f *Filt) Go() filter.Filter {
 		for i, n := range f.Names {
 			names[i] = Str(n)
 		}
-		return pod.NodeFilter(names...)
+		flt := pod.NodeFilter(names...)
+		for i := range names {
+			names[i] = "scribbled"
+		}
+		return flt
 	case FInvolved:
 		// both constructors, rotating: from the three strings, and from an object
 		// (of the core group, and of a named API group: the kind is the bare kind)
@@ -481,7 +501,10 @@ func (f *Filt) Go() filter.Filter {
 			return event.InvolvedObjectFilter(o)
 		}
 	case FSelectorMatch:
-		return service.SelectorMatchFilter(f.Map.Go())
+		m := f.Map.Go()
+		flt := service.SelectorMatchFilter(m)
+		scribbleMap(m)
+		return flt
 	case FServicePods:
 		var l []*corev1.Service
 		for _, o := range f.Objs {
@@ -545,4 +568,16 @@ func workloadPods(objs []*Obj) filter.Filter {
 		return job.PodsFilter(l...)
 	}
 	panic("not a workload kind")
+}
+
+// scribbleMap changes a map the caller handed to a constructor (what a caller
+// may do with its own map afterwards): every value replaced, a key added.
+func scribbleMap(m map[string]string) {
+	if m == nil {
+		return
+	}
+	for k := range m {
+		m[k] = "over"
+	}
+	m["scribbled"] = "over"
 }
